@@ -68,7 +68,7 @@ deriving DecidableEq, Repr
 (or `None`), in which case only the consumed argument is gone -/
 def MState.step (cfg : Cfg) (s : MState) : Op → MState × Status
   | .new cmd app flags hbh e2e =>
-    if cmdKnown cmd && appKnown app then ({ s with msg := Msg.new cmd app flags hbh e2e }, .ok) else (s, .bad)
+    if cfg.tables.cmdKnown cmd && cfg.tables.appKnown app then ({ s with msg := Msg.new cmd app flags hbh e2e }, .ok) else (s, .bad)
   | .val v => ({ s with stack := .val v :: s.stack }, .ok)
   | .grpNew => ({ s with stack := .val (.grouped []) :: s.stack }, .ok)
   | .grpAddAvp code vendor flags =>
